@@ -96,6 +96,32 @@ func GenWideDoc(r *Rng) DocSpec {
 	return DocSpec{C: []*NodeSpec{top}}
 }
 
+// GenTableDoc draws a regular document: 5-14 sibling rows that all carry the
+// same two or three attributes, with values from a four-value alphabet whose
+// members concatenate into each other. A function fed @k, @n from one row after
+// the other then sees argument tuples that collide under any key built by
+// concatenation or lossy hashing.
+func GenTableDoc(r *Rng) DocSpec {
+	vals := []string{"", "a", "b", "ab"}
+	if r.Chance(1, 3) {
+		vals = []string{"1", "12", "2", ""}
+	}
+	names := []string{"k", "n", "id"}[:r.Range(2, 3)]
+	row := r.Pick([]string{"a", "b", "c"})
+	top := &NodeSpec{K: "e", N: "d"}
+	for n := r.Range(5, 14); n > 0; n-- {
+		e := &NodeSpec{K: "e", N: row}
+		for _, an := range names {
+			e.A = append(e.A, [2]string{an, vals[r.Intn(len(vals))]})
+		}
+		if r.Chance(2, 3) {
+			e.C = append(e.C, &NodeSpec{K: "t", V: []string{"abab", "aabb", "ba", "a1b2", "121"}[r.Intn(5)]})
+		}
+		top.C = append(top.C, e)
+	}
+	return DocSpec{C: []*NodeSpec{top}}
+}
+
 // GenDeepDoc draws a chain 7-12 elements deep with a little fan-out.
 func GenDeepDoc(r *Rng) DocSpec {
 	top := &NodeSpec{K: "e", N: r.Pick(ElemNames)}
